@@ -11,6 +11,11 @@ operand:  N:<literal>   (a leading `-` = negative number)
   stockx <init literal> <S operand> <ex>     … to the ARRAYED stock S (Stock branch of `_handle_arrayed`)
   stockel <init literal> <S operand> <E operand>     arrayed stock := arrayed element
   aggdim <sum|prod> <dim> <operand>  arr_sum / arr_prod with an explicit dimension
+  hist <op> ; <op> ; …               re-shape history on ONE model (model `runHist []`); ops:
+                                     V <name> <n> | M <name> <m> <n> | NV <name> <a,b,…>   set-ups
+                                     U <rex>   (rex: N:<lit> | @<name> | O <form> <rex> <rex>)   use in a fresh converter
+                                     A <agg> <name>
+                                     reply: the replies of the U / A operations joined by ` || `
 ex:       <operand>  |  O <form> <ex> <ex>      (prefix notation)
 reply:    none | scalar | <toks>  |  vector <0|1> | <key> | <toks> | <key> | <toks> …
           | matrix <m> <n> | <toks> | <toks> …  (row-major)      tokens as wire words (PyWire) -/
@@ -88,6 +93,46 @@ def parseExAll (ws : List String) : Option Ex :=
   | some (x, []) => some x
   | _ => none
 
+def parseRefEx : Nat → List String → Option (RefEx × List String)
+  | 0, _ => none
+  | fuel + 1, ws =>
+    match ws with
+    | "O" :: f :: rest =>
+      (match parseForm f with
+       | some f =>
+         (match parseRefEx fuel rest with
+          | some (a, r1) =>
+            (match parseRefEx fuel r1 with
+             | some (b, r2) => some (.op f a b, r2)
+             | none => none)
+          | none => none)
+       | none => none)
+    | w :: rest =>
+      (match w.toList with
+       | '@' :: r => some (.ref (String.ofList r), rest)
+       | _ =>
+         (match parseOperand w with
+          | some (.num n l) => some (.num n l, rest)
+          | _ => none))
+    | [] => none
+
+def parseHOp (ws : List String) : Option HOp :=
+  match ws with
+  | ["V", nm, n] => n.toNat?.map (HOp.setupVec nm)
+  | ["M", nm, m, n] => (match m.toNat?, n.toNat? with | some m, some n => some (.setupMat nm m n) | _, _ => none)
+  | ["NV", nm, names] => some (.setupNamed nm (names.splitOn ","))
+  | ["A", g, nm] => (parseAgg g).map fun g => .agg g nm
+  | "U" :: rest =>
+    (match parseRefEx (rest.length + 1) rest with
+     | some (x, []) => some (.use x)
+     | _ => none)
+  | _ => none
+
+def showReply : Reply → String
+  | .res r => showResult r
+  | .term (some p) => "scalar | " ++ showPy p
+  | .term none => "none"
+
 def parseLit (lit : String) : Option Py :=
   match lit.toList with
   | '-' :: r => if r.isEmpty then none else some (.neg (.num (String.ofList r)))
@@ -122,6 +167,10 @@ def handle (line : String) : String :=
     (match parseForm f, parseOperand a, parseOperand b with
      | some f, some a, some b => showResult (expand f a b)
      | _, _, _ => "bad-op")
+  | "hist" :: ws =>
+    (match ((" ".intercalate ws).splitOn " ; ").mapM (fun o => parseHOp (o.splitOn " ")) with
+     | some ops => " || ".intercalate ((runHist [] ops).2.map showReply)
+     | none => "bad-op")
   | "expandx" :: ws =>
     (match parseExAll ws with
      | some x => showResult (expandE tNow x)
